@@ -913,9 +913,17 @@ func runC17(c *Ctx) {
 		o := r.w.decode(entMany, deep)
 		r.monitor(entMany, deep, o, "deep-nesting")
 		c.Count("deep65536", true)
-		c.AddCase(fmt.Sprintf("((%s, (EMany, repN 65536 159)), (repN 65536 91, %s))", newTables().coq(), finalTerm(o.Cls)), map[string]interface{}{"input": "9f x 65536", "class": o.Cls})
-		if !bytes.Equal(o.Out, bytes.Repeat([]byte{'['}, 65536)) {
-			c.Note("deep nesting: unexpected output length %d", len(o.Out))
+		if !bytes.Equal(o.Out, bytes.Repeat([]byte{'['}, 65536)) || o.Cls != 3 {
+			c.Note("deep nesting 65536: class %d, output length %d", o.Cls, len(o.Out))
+		}
+		// the model is evaluated on a 3000-deep instance (its continuation stack makes deep nesting quadratic under vm_compute)
+		d3 := bytes.Repeat([]byte{0x9f}, 3000)
+		o3 := r.w.decode(entMany, d3)
+		r.monitor(entMany, d3, o3, "deep-nesting")
+		if bytes.Equal(o3.Out, bytes.Repeat([]byte{'['}, 3000)) {
+			c.AddCase(fmt.Sprintf("((%s, (EMany, repN 3000 159)), (repN 3000 91, %s))", newTables().coq(), finalTerm(o3.Cls)), map[string]interface{}{"input": "9f x 3000", "class": o3.Cls})
+		} else {
+			r.addCase(newTables(), entMany, d3, o3)
 		}
 		deepm := bytes.Repeat([]byte{0xbf, 0x61, 0x61}, 21845)
 		o = r.w.decode(entMany, deepm)
